@@ -10,7 +10,7 @@ SPEC = {
     "files": ["src/utils/binio.rs", "src/store.rs", "src/collector/rrdp/archive.rs"],
     "harnesses": {
         "quick": ["c28_roundtrip_u8", "c28_roundtrip_u32", "c28_roundtrip_u64", "c28_roundtrip_i64",
-                  "c28_opt_markers_distinct"],
+                  "c28_opt_markers_distinct", "c28_roundtrip_serial"],
         "thorough": ["c28_roundtrip_uuid", "c28_roundtrip_hash"],
     },
     "harness_file": {"*": ("binio.rs", "src/utils/binio.rs")},
@@ -55,14 +55,14 @@ def field_types(E, body, kind):
 
 
 def run(res, tier):
-    res.functions += ["utils::binio Compose/Parse for u8, u32, u64, i64 (quick), Uuid, rrdp::Hash (thorough): Kani round trip through a fixed stack buffer"]
+    res.functions += ["utils::binio Compose/Parse for u8, u32, u64, i64, x509::Serial (quick), Uuid, rrdp::Hash (thorough): Kani round trip through a fixed stack buffer"]
     res.bounds += ["scalar encodings: every value of the full width is symbolic; the reader must return the value and be left empty",
                    "container parsers (HashMap): the item loop's range is 0..decoded length, for every 64-bit length",
                    "records: the sequence of field encodings written by write()/compose() must equal, type by type, the "
                    "sequence read by read()/parse() on their longest paths"]
     res.outside += ["Option<i64>: its parser's error arm builds an io::Error from a string, whose drop glue exhausts CBMC's "
                     "memory cap (14 GB) - the harness exists (c28_roundtrip_opt_i64) but is not part of a tier",
-                    "byte-level round trips of URIs, Bytes, Serial, Time and the delta-state HashMap (heap buffers / chrono "
+                    "byte-level round trips of URIs, Bytes, Time and the delta-state HashMap (heap buffers / chrono "
                     "division under CBMC: out of reach within the time caps); their symmetry is covered type-by-type only",
                     "HashMap iteration order does not matter for equality of the parsed map"]
     res.rule = ("K: one case = one Kani round-trip harness; M: one case = one record type whose write and read field "
